@@ -8,16 +8,28 @@ META = {
     "property_id": "C11",
     "technique": "Coq proof over a Gallina model of pgavlin/mvs Req/Upgrade/UpgradeAll/Downgrade, dawn's Reqs, query "
                  "resolver and transformReqs + correspondence on generated universes and operation sequences",
-    "level_text": "Theorems (Coq, unbounded) about the model of get.go/query.go/reqs.go and the library: see "
-                  "coq/Mvs/Props_C11.v. The model is tied to the code by running Get (every query class), Tidy and "
-                  "UpgradeAll in sequences of 1-4 operations on generated universes through the package's fake "
-                  "repository; every resulting configuration is recomputed by the model, and the statement's "
-                  "inequalities are checked directly against an independent build-list reference.",
+    "level_text": "Theorems (Coq, unbounded, all closed under the global context) about the model of get.go/query.go/"
+                  "reqs.go and the library: tidy_preserves_build_list; tidy_versions_sound (Algorithm R regenerates the "
+                  "build list); upgrade_contains_and_no_lower + upgrade_resolves (get add/no-op/upgrade for whatever "
+                  "version the query resolved to: >= resolved, nothing lowered); upgrade_all_no_lower (+ every project "
+                  "reaches Reqs.Upgrade's version); names_preserved_new_names_unique; tidy_idempotent; get_idempotent "
+                  "under the reported hypothesis 'the build list has the resolved version' with "
+                  "get_idempotent_refuted (F16 witness, vm_compute) and resolve_query_bl_independent; "
+                  "previous_strictly_lower (the F13 fact). PARTIAL: downgrade_at_or_below_partial and "
+                  "downgrade_terminates_partial cover the three BuildList phases of mvs.Downgrade; the missing lemma "
+                  "is down_list_spec (the add/exclude/previous phase only reaches in-bound nodes and does not exhaust "
+                  "its fuel); upgrade-all idempotence is not proved. The model is tied to the code by running Get "
+                  "(every query class), Tidy and UpgradeAll in sequences of 1-4 operations on generated universes; every "
+                  "resulting configuration is recomputed by the model (including every downgrade, with a watchdog) and the "
+                  "statement's inequalities are checked directly against an independent build-list reference.",
     "level_note": "Trusted: Coq kernel; python rendering of versions into semver records and the syntactic "
-                  "classification of the query string (after the implementation's own parseVersionQuery); Go map "
-                  "iteration order is not modelled: root requirement sets with two names for one path at different "
-                  "versions are excluded (get returns them order-dependently; set VERIF_DUP_PATHS=1 to see it). "
-                  "Known finding get-downgrade-overshoot is reported under its key.",
+                  "classification of the query string (after the implementation's own parseVersionQuery). Hypotheses "
+                  "stated in the theorems: requirements name non-empty paths at canonical versions (wf_universe/"
+                  "wf_reqs), the resolved version is such a node (wf_node version), and for get 'no two requirement "
+                  "names share a path' (paths_unique): with two names for one path at different versions get assigns "
+                  "both the version that comes last in Go-map iteration order (class excluded from the generator; "
+                  "VERIF_DUP_PATHS=1 shows it). Known findings get-downgrade-overshoot and get-patch-absent are "
+                  "reported under their keys.",
     "design_ref": "DESIGN.md §6 C11",
 }
 
@@ -93,7 +105,7 @@ def run(ctx):
                       found_input=False)
         return
 
-    nuniv = 120 if ctx.quick() else 1500
+    nuniv = 220 if ctx.quick() else 1500
     out = os.path.join(ctx.tmp, "c11.jsonl")
     env = {"VERIF_OUT": out, "VERIF_NUNIV": str(nuniv), "VERIF_NSEQ": "3", "VERIF_SEED": str(ctx.seed),
            "VERIF_DUP_PATHS": os.environ.get("VERIF_DUP_PATHS", "0")}
@@ -119,7 +131,8 @@ def run(ctx):
     for c in cases:
         k = c["op"]["op"]
         if k == "get":
-            k += ":" + cq_query(c["qp"][1]).strip("(").split(" ")[0:2][-1]
+            t = cq_query(c["qp"][1])
+            k += ":" + ("QRef" if t.startswith("(QRef") else t.split("(")[2].split(" ")[0] if t.startswith("(QRange") else t)
         k += ":" + c["res"]["st"]
         dist[k] = dist.get(k, 0) + 1
     ctx.coverage["evaluations"] = len(cases)
